@@ -948,6 +948,12 @@ func (env *Env) call(e *SExpr) TV {
 		return boolTV(tAnd(conj...))
 	case "strlen":
 		return mathInt(env.ex.strLen(env.sinkState(), env.evalInt(e.Args[0])))
+	case "strlt":
+		// Go's `<` on strings (the same strict total order the code's comparisons use)
+		if len(e.Args) != 2 {
+			sfail("strlt(a, b) takes two strings")
+		}
+		return boolTV(env.ex.strLess(env.evalInt(e.Args[0]), env.evalInt(e.Args[1])))
 	}
 	if d := env.lookupDef(name); d != nil {
 		if len(d.Params) != len(e.Args) {
